@@ -1,4 +1,5 @@
 import ClusterVerif.Lemmas.C17Step
+import ClusterVerif.Lemmas.C17Fault
 import ClusterVerif.Gen.C17
 
 /-!
@@ -453,5 +454,290 @@ def removeLeaderCase : Case :=
     ops := [.pin 0 (pinCid 1) .ok, .start 1, .add 0 1 .ok, (.ready 1 true true true [(pinCid 1).stored]), .rm 1 0 .ok],
     obs := { members := [{ id := 1, peers := [1], pins := [(pinCid 1).stored], nonvoters := [] }], gone := [] } }
 example : allowed removeLeaderCase = true ∧ holds removeLeaderCase = true := by decide
+
+/-! ## the failure arms: traces of attempts, under ANY oracle (Model/C17Fault.lean) -/
+
+/-- the traced loops compute what the loops compute -/
+theorem traced_loops_agree (self retries : Nat) (att : Attempt) (orc : Nat → Tick) (n pos : Nat) (log : List Entry) :
+    (consLoopT self retries att orc n pos log).1 = consLoop self retries att orc n pos log :=
+  consLoopT_fst self retries att orc n pos log
+
+/-- AddPeer / RmPeer / commit report an error exactly when the caller saw no attempt succeed (no answered forward
+    with a good result, no own Raft call that succeeded) — any oracle, any number of retries -/
+theorem error_iff_no_attempt_succeeded (self retries : Nat) (att : Attempt) (orc : Nat → Tick) (log : List Entry) :
+    (consLoopT self retries att orc (retries + 1) 0 log).1.1 = .err ↔
+      ∀ a ∈ (consLoopT self retries att orc (retries + 1) 0 log).2, a.ackOk = false := by
+  obtain ⟨h1, h2⟩ := consLoopT_trace self retries att orc (retries + 1) 0 log
+  refine ⟨h2, fun hall => ?_⟩
+  cases hr : (consLoopT self retries att orc (retries + 1) 0 log).1.1 with
+  | err => rfl
+  | ok =>
+    obtain ⟨a, ha, hk⟩ := h1 hr
+    rw [hall a ha] at hk; cases hk
+
+/-- an acknowledged call: some attempt was executed by the leader, succeeded there, and its answer arrived -/
+theorem ack_implies_some_attempt_committed (self retries : Nat) (att : Attempt) (orc : Nat → Tick) (log : List Entry)
+    (h : (consLoopT self retries att orc (retries + 1) 0 log).1.1 = .ok) :
+    ∃ a ∈ (consLoopT self retries att orc (retries + 1) 0 log).2, a.answered = true ∧ a.res = .ok := by
+  obtain ⟨a, ha, hk⟩ := (consLoopT_trace self retries att orc (retries + 1) 0 log).1 h
+  refine ⟨a, ha, ?_⟩
+  simpa [Att.ackOk] using hk
+
+/-- a call reported as FAILED in which no reply was lost left the log — hence every member's peerset and pinset — alone -/
+theorem failed_without_lost_reply_unchanged (self retries : Nat) (orc : Nat → Tick) (log : List Entry) (p : Nat) :
+    ((consLoopT self retries (rwAddPeer p) orc (retries + 1) 0 log).1.1 = .err →
+      (∀ a ∈ (consLoopT self retries (rwAddPeer p) orc (retries + 1) 0 log).2, a.executed = true → a.answered = true) →
+      (consAddPeer self retries orc log p).2 = log) ∧
+    ((consLoopT self retries (rwRemovePeer p) orc (retries + 1) 0 log).1.1 = .err →
+      (∀ a ∈ (consLoopT self retries (rwRemovePeer p) orc (retries + 1) 0 log).2, a.executed = true → a.answered = true) →
+      (consRmPeer self retries orc log p).2 = log) := by
+  constructor
+  · intro h1 h2
+    have := consLoopT_no_lost (errEmpty_add p) (retries + 1) 0 log h1 h2
+    rw [consLoopT_fst] at this
+    exact this
+  · intro h1 h2
+    have := consLoopT_no_lost (errEmpty_rm p) (retries + 1) 0 log h1 h2
+    rw [consLoopT_fst] at this
+    exact this
+
+/-- whatever the oracle: an AddPeer leaves the log alone, or — only if the peer was absent — appends ONE AddVoter -/
+theorem add_once_if_absent (self retries : Nat) (orc : Nat → Tick) (log : List Entry) (p : Nat) :
+    (consAddPeer self retries orc log p).2 = log ∨
+    (cfgHas (cfgAt log) p = false ∧ (consAddPeer self retries orc log p).2 = log ++ [.addVoter p]) :=
+  add_once_if_absent' self retries orc log p
+
+theorem rm_once_if_present (self retries : Nat) (orc : Nat → Tick) (log : List Entry) (p : Nat) :
+    (consRmPeer self retries orc log p).2 = log ∨
+    (cfgHas (cfgAt log) p = true ∧ (consRmPeer self retries orc log p).2 = log ++ [.rmServer p]) :=
+  rm_once_if_present' self retries orc log p
+
+/-- an acknowledged AddPeer / RmPeer is committed: the peer is in / out of the configuration of the (single) log, and
+    the log is either untouched (the peer was already there / already gone) or one entry longer — any oracle -/
+theorem ack_implies_committed (self retries : Nat) (orc : Nat → Tick) (log : List Entry) (p : Nat) :
+    ((consAddPeer self retries orc log p).1 = .ok →
+      cfgHas (cfgAt (consAddPeer self retries orc log p).2) p = true ∧
+      ((cfgHas (cfgAt log) p = true ∧ (consAddPeer self retries orc log p).2 = log) ∨
+       (cfgHas (cfgAt log) p = false ∧ (consAddPeer self retries orc log p).2 = log ++ [.addVoter p]))) ∧
+    ((consRmPeer self retries orc log p).1 = .ok →
+      cfgHas (cfgAt (consRmPeer self retries orc log p).2) p = false ∧
+      ((cfgHas (cfgAt log) p = false ∧ (consRmPeer self retries orc log p).2 = log) ∨
+       (cfgHas (cfgAt log) p = true ∧ (consRmPeer self retries orc log p).2 = log ++ [.rmServer p]))) := by
+  constructor
+  · intro h
+    have he := add_effect self retries orc log p h
+    refine ⟨he, ?_⟩
+    rcases add_once_if_absent self retries orc log p with h1 | h1
+    · left; rw [h1] at he; exact ⟨he, h1⟩
+    · right; exact h1
+  · intro h
+    have he := rm_effect self retries orc log p h
+    refine ⟨he, ?_⟩
+    rcases rm_once_if_present self retries orc log p with h1 | h1
+    · left; rw [h1] at he; exact ⟨he, h1⟩
+    · right; exact h1
+
+/-- idempotence under retries: a follower's AddPeer whose forward is answered at least once within its
+    `commit_retries + 1` attempts is acknowledged — however many earlier forwards were refused, or were EXECUTED with the
+    answer lost — and the peer was added at most once (`add_once_if_absent`). In particular a retried AddPeer whose
+    first attempt committed but whose answer was lost does not report failure. -/
+theorem lost_reply_retry_acks (self lead retries : Nat) (orc : Nat → Tick) (log : List Entry) (p : Nat)
+    (hl : ∀ k, (orc k).leader = some lead) (hne : lead ≠ self) (h : ∃ i, i ≤ retries ∧ (orc i).ok = true) :
+    (consAddPeer self retries orc log p).1 = .ok ∧ cfgHas (cfgAt (consAddPeer self retries orc log p).2) p = true := by
+  have hok : (consAddPeer self retries orc log p).1 = .ok :=
+    consLoop_answered (good_add_any p) hl trivial (by simpa using hne) h
+  exact ⟨hok, add_effect self retries orc log p hok⟩
+
+/-- the first forward commits and its answer is lost; the retry is answered: acknowledged, ONE entry -/
+example : consAddPeer 1 1 (planOrc 1 0 [.l]) [.boot [0, 1, 2]] 3 = (.ok, [.boot [0, 1, 2], .addVoter 3]) := by decide
+/-- … with `commit_retries = 0` there is no retry: reported as failed, yet in the single log (visible on all, not split) -/
+example : consAddPeer 1 0 (planOrc 1 0 [.l]) [.boot [0, 1, 2]] 3 = (.err, [.boot [0, 1, 2], .addVoter 3]) := by decide
+/-- the leader (0) loses the leadership between looking and calling Raft: its call fails; with a retry the request is
+    forwarded to the new leader (2) and acknowledged; without one it is reported as failed and nothing happened -/
+example : consAddPeer 0 1 (planOrc 0 2 [.x]) [.boot [0, 1, 2]] 3 = (.ok, [.boot [0, 1, 2], .addVoter 3]) ∧
+    consAddPeer 0 0 (planOrc 0 2 [.x]) [.boot [0, 1, 2]] 3 = (.err, [.boot [0, 1, 2]]) := by decide
+/-- every forward refused: failed, nothing happened; three forwards for `commit_retries = 2` -/
+example : (consLoopT 1 2 (rwAddPeer 3) (planOrc 1 0 [.f, .f, .f, .f]) 3 0 [.boot [0, 1, 2]]).1 = (.err, [.boot [0, 1, 2]]) ∧
+    fwdCount (consLoopT 1 2 (rwAddPeer 3) (planOrc 1 0 [.f, .f, .f, .f]) 3 0 [.boot [0, 1, 2]]).2 = 3 := by decide
+
+/-! ## concurrent issue: the single log linearises membership changes and pins -/
+
+/-- Whatever order Raft gave to the acknowledged configuration entries and pin entries issued concurrently — `log` is
+    ANY list of entries, in particular any interleaving of two sequences — two members that applied the same index
+    report the same peerset and the same pinset; and for every interleaving all caught-up members report the
+    configuration and the pinset of that one log. -/
+theorem interleaved_log_agree (log : List Entry) (m1 m2 : Member)
+    (hh : m1.have_ = m2.have_) (ha : m1.applied = m2.applied) :
+    m1.peers log = m2.peers log ∧ m1.pins log = m2.pins log := by
+  unfold Member.peers Member.cfg Member.pins
+  rw [hh, ha]
+  exact ⟨rfl, rfl⟩
+
+/-- pins do not disturb the configuration and configuration entries do not disturb the pinset: in any interleaving
+    the peerset is the replay of the configuration entries alone and the pinset the replay of the pin entries alone -/
+theorem interleaving_projections (log : List Entry) :
+    cfgAt log = cfgAt (log.filter (fun e => !e.isPinOp)) ∧ pinsAt log = pinsAt (log.filter (fun e => e.isPinOp)) := by
+  unfold cfgAt pinsAt
+  constructor
+  · generalize ([] : Config) = c
+    induction log generalizing c with
+    | nil => rfl
+    | cons e rest ih =>
+      cases he : e.isPinOp with
+      | true => simp only [List.foldl_cons, List.filter_cons, he, Bool.not_true, Bool.false_eq_true, if_false]
+                rw [applyCfg_of_pinOp he]; exact ih c
+      | false => simp only [List.foldl_cons, List.filter_cons, he, Bool.not_false, if_true]; exact ih _
+  · generalize ([] : PinMap) = c
+    induction log generalizing c with
+    | nil => rfl
+    | cons e rest ih =>
+      cases he : e.isPinOp with
+      | false => simp only [List.foldl_cons, List.filter_cons, he, Bool.false_eq_true, if_false]
+                 rw [applyPin_of_not_pinOp he]; exact ih c
+      | true => simp only [List.foldl_cons, List.filter_cons, he, if_true]; exact ih _
+
+example : cfgIds (cfgAt [.boot [0, 1], .pin (pinCid 1), .addVoter 2, .pin (pinCid 2), .rmServer 0]) = [1, 2] ∧
+    cfgIds (cfgAt [.boot [0, 1], .addVoter 2, .rmServer 0, .pin (pinCid 1), .pin (pinCid 2)]) = [1, 2] := by decide
+
+/-! ## fault scripts: what the model admits of a run with injected failures meets the property -/
+
+/-- the full statement for suite `fault`: every fault script outcome and observation the model admits — any plan of
+    refused forwards, lost replies and refused Raft calls, any `commit_retries`, calls at leaders and followers,
+    removal of the leader or of the caller through a lost reply — meets every clause of the property -/
+def C17_fault_full : Prop := ∀ k : FCase, fAllowed k = true → fHolds k = true
+
+theorem fault_allowed_holds (k : FCase) (ha : fAllowed k = true) : fHolds k = true := by
+  unfold fAllowed at ha
+  cases hr : fReplay k.retries k.init [.boot k.init] k.ops with
+  | none => rw [hr] at ha; cases ha
+  | some log =>
+    rw [hr] at ha
+    simp only at ha
+    obtain ⟨R, hc⟩ := fReplay_rel k.ops (fRel_init k.init) hr
+    unfold fHolds fClauses
+    rw [List.all_append, Bool.and_eq_true]
+    exact ⟨hc, fObs_clauses R ha⟩
+
+theorem C17_fault_full_holds : C17_fault_full := fault_allowed_holds
+
+/-- commit_retries = 1, follower 1 adds peer 3: the first forward commits but its answer is lost, the retry is
+    acknowledged; then its removal fails twice at the endpoint (reported as failed, nothing happened) -/
+def lostReplyCase (res2 : Res) (has2 : Has) (peers : List Nat) : FCase :=
+  { retries := 1, init := [0, 1, 2],
+    ops := [.add 1 3 0 [.l] .ok 2 0 .all, .rm 1 3 0 [.f, .f] res2 2 0 has2],
+    obs := { members := [0, 1, 2].map (fun i => { id := i, peers := peers, pins := [], nonvoters := [] }), gone := [] } }
+
+example : fAllowed (lostReplyCase .err .all [0, 1, 2, 3]) = true ∧ fHolds (lostReplyCase .err .all [0, 1, 2, 3]) = true ∧
+    -- a removal acknowledged although every forward failed (redirectToLeader swallowing the error) breaks `ack_in_all`
+    fHolds (lostReplyCase .ok .all [0, 1, 2, 3]) = false ∧ fAllowed (lostReplyCase .ok .all [0, 1, 2, 3]) = false ∧
+    -- a split outcome is refused
+    fHolds (lostReplyCase .err .mixed [0, 1, 2, 3]) = false := by decide
+
+/-! ## concurrent phases (suite `conc`) — validated by the correspondence run, not proved
+
+The full statement: every observation the model explains by SOME order of each phase meets the clauses. Kept as a
+definition; `interleaved_log_agree` / `interleaving_projections` above are what is proved about interleavings. -/
+def C17_conc_full : Prop := ∀ k : CCase, cAllowed k = true → cHolds k = true
+
+/-- a pin at the leader races with the leader's own removal: acknowledged pin present in either order -/
+def concCase (pins : PinMap) : CCase :=
+  { retries := 1, init := [0, 1, 2],
+    phases := [[.rm 0 0 .ok, .pin 0 (pinCid 1) .ok, .pin 1 (pinCid 2) .ok]],
+    obs := { members := [1, 2].map (fun i => { id := i, peers := [1, 2], pins := pins, nonvoters := [] }), gone := [] } }
+example : cAllowed (concCase [(pinCid 1).stored, (pinCid 2).stored]) = true ∧
+    cHolds (concCase [(pinCid 1).stored, (pinCid 2).stored]) = true ∧
+    cHolds (concCase [(pinCid 2).stored]) = false ∧ cAllowed (concCase [(pinCid 2).stored]) = false := by decide
+
+/-! ## a joiner during a burst of pins (suite `join`) -/
+
+/-- A peer that `WaitForSync` lets through has applied every entry logged before its own addition — also when entries
+    keep arriving while it catches up: if no entry below index `a` gives it a vote, `a < applied` and its pinset is the
+    pinset at `a` extended by the entries it applied since. -/
+theorem joiner_holds_everything_before_addition (log : List Entry) (j h a : Nat)
+    (hr : syncReady log true { id := j, have_ := h, applied := h } = true)
+    (hfirst : ∀ k e, log[k]? = some e → e.enfranchises j = true → a ≤ k) :
+    a < h ∧ pinsAt (log.take h) = ((log.take h).drop a).foldl applyPin (pinsAt (log.take a)) :=
+  joiner_sync_lemma log j h a hr hfirst
+
+/-- the full statement for suite `join`: whatever position Raft gave to the joiner's addition among the pins of the burst
+    (after those acknowledged before `AddPeer` was issued) and whatever prefix the joiner had applied when `WaitForSync`
+    let it through, it held every pin acknowledged before the join was issued, and after the burst everybody reports
+    one peerset and one pinset. Hypotheses: the joiner is a new peer, the pins have distinct cids. -/
+theorem join_allowed_holds (k : JCase) (hw : WfJ k) (ha : jAllowed k = true) : jHolds k = true :=
+  join_allowed_holds' k hw ha
+
+/-- one member, two pins before, a burst of three of which one was acknowledged when the join was issued -/
+def joinCase (ready : PinMap) : JCase :=
+  { init := [0], joiner := 3, pre := [pinCid 0, pinCid 1], burst := [pinCid 2, pinCid 3, pinCid 4], acked := 1, addRes := .ok,
+    bits := (true, true, true), ready := ready,
+    obs := { members := [0, 3].map (fun i =>
+               ({ id := i, peers := [0, 3], pins := [pinCid 0, pinCid 1, pinCid 2, pinCid 3, pinCid 4].map Pin.stored, nonvoters := [] } : MemberObs)),
+             gone := [] } }
+
+example : jAllowed (joinCase ([pinCid 0, pinCid 1, pinCid 2, pinCid 3].map Pin.stored)) = true ∧
+    jHolds (joinCase ([pinCid 0, pinCid 1, pinCid 2, pinCid 3].map Pin.stored)) = true ∧
+    -- ready before its own addition was applied (WaitForSync without the voter wait): neither admitted nor accepted
+    jAllowed (joinCase ([pinCid 0].map Pin.stored)) = false ∧ jHolds (joinCase ([pinCid 0].map Pin.stored)) = false := by decide
+
+/-! ## raftWrapper: a future error is returned as an error (latest vs committed configuration) -/
+
+/-- the code (`recheck = false`) is the Bool-future wrapper the retry loops are stated over: whatever the leader's own
+    log shows after a failed future, the attempt fails and nothing reaches the committed log -/
+theorem wrapper_future_error_is_error (p : Nat) (c : Config) (fut : Fut) :
+    rwAddPeerW false p c fut = rwAddPeer p c (fut == .ok) ∧ rwRemovePeerW false p c fut = rwRemovePeer p c (fut == .ok) := by
+  unfold rwAddPeerW rwAddPeer rwRemovePeerW rwRemovePeer
+  cases fut <;> simp
+
+/-- acknowledged ⇒ committed, at the wrapper: NEEDS "a future error is returned as an error" (`recheck = false`) -/
+theorem ack_implies_committed_wrapper (log : List Entry) (p : Nat) (fut : Fut) :
+    ((rwAddPeerW false p (cfgAt log) fut).1 = .ok →
+      cfgHas (cfgAt (log ++ (rwAddPeerW false p (cfgAt log) fut).2)) p = true) ∧
+    ((rwRemovePeerW false p (cfgAt log) fut).1 = .ok →
+      cfgHas (cfgAt (log ++ (rwRemovePeerW false p (cfgAt log) fut).2)) p = false) := by
+  rw [(wrapper_future_error_is_error p (cfgAt log) fut).1, (wrapper_future_error_is_error p (cfgAt log) fut).2]
+  constructor
+  · intro h
+    cases hh : cfgHas (cfgAt log) p with
+    | true => rw [rwAddPeer_present hh, List.append_nil]; exact hh
+    | false =>
+      unfold rwAddPeer at h ⊢
+      simp only [hh, Bool.false_eq_true, if_false] at h ⊢
+      split_ifs at h ⊢
+      rw [cfgAt_append]; simp only [applyCfg]; rw [cfgHas_cfgPut]; simp
+  · intro h
+    cases hh : cfgHas (cfgAt log) p with
+    | false => rw [rwRemovePeer_absent hh, List.append_nil]; exact hh
+    | true =>
+      unfold rwRemovePeer at h ⊢
+      simp only [hh, Bool.not_true, Bool.false_eq_true, if_false] at h ⊢
+      split_ifs at h ⊢
+      rw [cfgAt_append]; simp only [applyCfg]; rw [cfgHas_cfgErase]; simp
+
+/-- the refuted alternative (seeded change C17e: on a future error trust `rw.Peers()`, i.e. the LATEST configuration):
+    a cut-off leader acknowledges an addition / a removal that no quorum accepted — the committed configuration, which is
+    what every member reports after the partition heals, does not have / still has the peer -/
+theorem recheck_acks_uncommitted :
+    ((rwAddPeerW true 3 (cfgAt [.boot [0, 1, 2]]) .errAppended).1 = .ok ∧
+      cfgHas (cfgAt ([.boot [0, 1, 2]] ++ (rwAddPeerW true 3 (cfgAt [.boot [0, 1, 2]]) .errAppended).2)) 3 = false) ∧
+    ((rwRemovePeerW true 2 (cfgAt [.boot [0, 1, 2]]) .errAppended).1 = .ok ∧
+      cfgHas (cfgAt ([.boot [0, 1, 2]] ++ (rwRemovePeerW true 2 (cfgAt [.boot [0, 1, 2]]) .errAppended).2)) 2 = true) := by
+  decide
+
+/-- everything after the first occurrence of `a`, inclusive -/
+def fromFirst (a : String) (l : List String) : List String := l.dropWhile (· != a)
+
+/-- on today's source: after the Raft call the wrappers do nothing but return the future's error (AddPeer: log, then
+    `return err`; RemovePeer: `if err != nil { return err }; return nil`) — no second look at the configuration -/
+theorem gen_rw_future_error_returned :
+    fromFirst "call:AddVoter" Gen.rwAddPeer = ["call:AddVoter", "if:err != nil", "end", "ret:err"] ∧
+    fromFirst "call:RemoveServer" Gen.rwRemovePeer = ["call:RemoveServer", "if:err != nil", "ret:err", "end", "ret:nil"] := by
+  decide
+
+/-- the partition on real peers (suite `fault`, plan `p`): acknowledged by the cut-off leader, in nobody's peerset -/
+def partitionCase (res : Res) (has : Has) (peers : List Nat) : FCase :=
+  { retries := 0, init := [0, 1, 2], ops := [.rm 0 2 1 [.p] res 0 1 has],
+    obs := { members := [0, 1, 2].map (fun i => ({ id := i, peers := peers, pins := [], nonvoters := [] } : MemberObs)), gone := [] } }
+example : fAllowed (partitionCase .err .all [0, 1, 2]) = true ∧ fHolds (partitionCase .err .all [0, 1, 2]) = true ∧
+    fAllowed (partitionCase .ok .all [0, 1, 2]) = false ∧ fHolds (partitionCase .ok .all [0, 1, 2]) = false := by decide
 
 end CV.C17
